@@ -9,7 +9,7 @@ from harness.deser_run import Producer
 from harness.descr import data_real, ty_coq, value_coq, ty_src
 from harness.props.c06 import in_domain, no_fallback_universe, has_set
 
-NEEDED = ["Deser/Model.v", "Deser/Spec.v", "Ser/Model.v", "Ser/Spec.v", "Ser/RoundTrip.v", "Ser/RoundTripProofs.v", "Ser/RoundTripInd.v"]
+NEEDED = ["Deser/Model.v", "Deser/Spec.v", "Ser/Model.v", "Ser/Spec.v", "Ser/RoundTrip.v", "Ser/RoundTripProofs.v", "Ser/RoundTripInd.v", "Ser/RoundTripGen.v"]
 HEADER_EXTRA = "From AV Require Import Ser.RoundTrip.\n"
 
 
@@ -441,6 +441,13 @@ def run(tier):
     for k, e in errs:
         R.broken.append(f"coq evaluation failed (C05_hyps shard {k}): {e[-300:]}")
     R.hist["cases_within_the_proved_theorem"] = len(items) - len(outside)
+    # ... and of C05_round_trip_with_symmetric_skips (skip options, exclude_defaults, reordered fields)
+    outside2, errs = core.run_coq_shards("C05_hyps_sym", P.header() + HEADER_EXTRA + "From AV Require Import Ser.RoundTripInd Ser.RoundTripGen.\n",
+                                         items, "(fun c : " + T1 + " => let '(u, o, t, v) := c in rt_hyps u o 40 t v || rtg_hyps u o 40 t v)",
+                                         item_type=T1, shard=250)
+    for k, e in errs:
+        R.broken.append(f"coq evaluation failed (C05_hyps_sym shard {k}): {e[-300:]}")
+    R.hist["cases_within_the_theorems_incl_symmetric_skips"] = len(items) - len(outside2)
     return R.finish(
         rule="bijective universes (dataclass / NamedTuple / TypedDict, aliases, defaults, skip(serialization_default), "
              "none_as_undefined, Undefined fields, ordering, fields_set) x types of depth <= 3 x canonical well-typed values "
